@@ -60,6 +60,11 @@ def record_lines(rng, quick):
              'SEQRES   1 B    2  ALA GLY\n')
     lines.append('recs\t%s 0' % F.hx(probe))
     lines.append('o_pad\t%s 0' % F.hx(probe))
+    # a last line without newline keeps its last character
+    lines.append('o_pad\t%s 0' % F.hx('KEYWDS    HYDROLASE\nTITLE     SOMETHING'))
+    # every record kind cut at every length: no memory error (ASan)
+    for _ in range(2 if quick else 40):
+        lines.append('o_cutall\t%d %d %d %d' % (rng.randrange(1, 2 ** 40), rng.choice([1, 2]), 2, 3))
     return lines
 
 
